@@ -1,13 +1,15 @@
 #!/bin/sh
-# run every collected mutant against the check of the property it was written for
-out=${1:-/tmp/matrix.txt}; : > $out
-for d in /verif/seeded/incoming/agent_out*_*/[A-Z] /verif/seeded/incoming/agent_out*_*/extra_C /verif/seeded/incoming/agent_out*_*/C_bonus; do
-  [ -f $d/patch.diff ] || continue
-  id=$(echo $d | sed "s#.*agent_out2*_\(C[0-9]*\)b*/.*#\1#"); name=$(echo $d | sed 's#.*incoming/agent_##')
-  res=$(tools/try_mutant.sh $d/patch.diff $id 2>&1)
+# run every kept seeded change (seeded/C*/) against the quick check named in its meta.json (check_run), on /repo HEAD;
+# writes seeded/MATRIX.txt.  Applies each patch to /repo and reverts it: nothing else may use /repo meanwhile.
+out=${1:-/verif/seeded/MATRIX.txt}; : > $out
+echo "# detection matrix on /repo $(git -C /repo rev-parse --short HEAD), /verif $(git -C /verif rev-parse --short HEAD) - tools/mutant_matrix.sh" >> $out
+for d in /verif/seeded/C*/; do
+  id=$(basename $d)
+  props=$(/venv/bin/python -c "import json,sys; print(' '.join(json.load(open('$d/meta.json'))['check_run'].split()[2:]))")
+  res=$(/verif/tools/try_mutant.sh $d/patch.diff $props 2>&1)
   if echo "$res" | grep -q PATCH-DOES-NOT-APPLY; then v=NOAPPLY
   elif echo "$res" | grep -q "^RESULT .* rc=1 "; then v=DETECTED
   elif echo "$res" | grep -q "^RESULT .* rc=2 "; then v=CHECK-ERROR
   else v=MISSED; fi
-  echo "$name $id $v $(echo "$res" | grep "^RESULT" | sed 's/RESULT //')" | tee -a $out
+  echo "$id $v $(echo "$res" | grep "^RESULT" | sed 's/RESULT //' | tr '\n' ' ')" | tee -a $out
 done
